@@ -35,3 +35,47 @@ def install():
             return __orig(self, *a, **k)
 
         cls.__init__ = init
+
+
+# -- process-global state of the code under test ---------------------------------
+# Runs execute back to back in one worker process; for a run to be a pure function of its case (and so replayable
+# in a fresh interpreter) no module- or class-level cache of cotengra may carry over.  Every container that was
+# EMPTY when first seen (caches; registries are filled at import and left alone) is emptied again before each run,
+# and every functools cache is cleared.
+
+_SEEN_MODULES = set()
+_TRACKED = {"containers": [], "lru": []}
+
+
+def _scan_namespace(ns, owner):
+    import collections
+
+    for k, v in list(ns.items()):
+        if k.startswith("__"):
+            continue
+        if isinstance(v, (dict, list, set, collections.deque)) and type(v).__module__ in ("builtins", "collections"):
+            if len(v) == 0:
+                _TRACKED["containers"].append(v)
+        elif callable(getattr(v, "cache_clear", None)):
+            _TRACKED["lru"].append(v)
+
+
+def hermetic_reset():
+    import sys
+
+    for name, mod in list(sys.modules.items()):
+        if mod is None or not (name == "cotengra" or name.startswith("cotengra.")) or name in _SEEN_MODULES:
+            continue
+        _SEEN_MODULES.add(name)
+        ns = vars(mod)
+        _scan_namespace(ns, name)
+        for v in list(ns.values()):
+            if isinstance(v, type) and getattr(v, "__module__", None) == name:
+                _scan_namespace(vars(v), v)
+    for c in _TRACKED["containers"]:
+        c.clear()
+    for f in _TRACKED["lru"]:
+        try:
+            f.cache_clear()
+        except Exception:
+            pass
